@@ -365,3 +365,41 @@ def replay(rp, vlib, judge):
     b = vlib.run_driver(model, [line], jobs=1)[0]
     v, why = judge(line, a)
     return dict(case=line, implementation=a, model=b, judge=v, why=why)
+
+
+# ---------------------------------------------------------------- C10: memory vs stream loading of MsgPack documents
+
+def mem_vs_stream(ctx, vlib):
+    """the same read sequences through CMsgPackStringReader and CMsgPackStreamReader (chunk size 256 and,
+    with the hook, 8): both must give the model's answers, hence the same value / the same error category"""
+    rng, tier = ctx["rng"], ctx["tier"]
+    srcs = ["drv_msgpack.cpp"] + vlib.repo_sources("src/msgpack/*.cpp", "src/common/*.cpp")
+    impls = {256: vlib.build_cpp("drv_msgpack", srcs)}
+    hook = "BITSERIALIZER_VERIF_CHUNK_SIZE" in open(vlib.REPO + "/src/common/binary_stream_reader.h").read()
+    if hook:
+        impls[8] = vlib.build_cpp("drv_msgpack_k8", srcs, extra=["-DBITSERIALIZER_VERIF_CHUNK_SIZE=8"])
+    model = vlib.build_model("mp")
+    base = reader_cases(rng, tier, kinds=("m",)) + boundary_cases(rng, tier, kinds=("m",))
+    if tier == "quick":
+        base = base[::3]
+    mem = base
+    stream = [c.replace(" m ", " s ", 1) for c in base]
+    om = vlib.run_driver(model, mem)
+    failing, diffs = [], []
+    evals = 0
+    classes = {}
+    for k, impl in sorted(impls.items()):
+        a_mem = vlib.run_driver(impl, mem) if k == 256 else None
+        a_str = vlib.run_driver(impl, stream)
+        evals += len(stream) + (len(mem) if a_mem else 0)
+        classes["msgpack mem-vs-stream K=%d" % k] = len(stream)
+        for i, line in enumerate(stream):
+            ref = a_mem[i] if a_mem else om[i]
+            if a_str[i] != ref or a_str[i] != om[i]:
+                same_cat = a_str[i].split(" ")[0] == ref.split(" ")[0] and (not a_str[i].startswith("ERR") or a_str[i] == ref)
+                rec = dict(driver="msgpack", case=line, chunk=k, implementation=a_str[i], memory_reader=ref, model=om[i],
+                           judge="FAIL" if a_str[i] != ref else "DIFF",
+                           why="stream loading (%s) differs from memory loading (%s) of the same document" % (a_str[i][:80], ref[:80]) if a_str[i] != ref
+                               else "both readers agree with each other but not with the model")
+                (failing if a_str[i] != ref else diffs).append(rec)
+    return dict(evaluations=evals, failing=failing[:20], diffs=diffs[:20], classes=classes, hook=hook)
